@@ -1,231 +1,90 @@
-import FluteModel.Lemmas.SessionObjRecv
+import FluteModel.Lemmas.SessionEmit
+import FluteModel.Lemmas.SessionClean
+import FluteModel.Lemmas.SessionStream
 /-
-  `Session.runObj` (what e2e's C01 / C02 / C16 theorems are about: the receiver seen from one TOI, events `Ev.fdt lists` / `Ev.pkt s`)
-  against `Link.objRun` (the object-level run the link with `ObjRecv` is stated over), for ONE LIFE of the object: from a state
-  without object (not in the completed registry) the first packet creates it - attached at creation when a complete FDT instance
-  already lists the TOI (`age.isSome`) -, FDT instances listing it attach it, packets are pushed, until the object ends.
-  `lifeL` is the event translation; the guard `aliveRun` says every translated event finds the object alive (the last one may end it).
+  From the sender facts of one transfer (`emitTransfer_facts`) to what the receiver theorems need
+  of an object's packets over its whole life (transfers concatenated as `is_last_transfer` dictates).
 -/
-namespace Flute.Link
-open Flute Flute.ObjRecv
+namespace Flute.Lemmas.Session
+open Flute.Session
 
-/-- the events of one life as the object sees them (`created`: the object exists; `age`: `OState.age`) -/
-def lifeL : Bool → Option Nat → List Session.Ev → List LEv
-  | _, _, [] => []
-  | false, age, .fdt l :: es => lifeL false (Session.ageStep age l) es
-  | false, age, .pkt s :: es => (if age.isSome then [.att, .pkt s] else [.pkt s]) ++ lifeL true age es
-  | true, age, .fdt l :: es => (if l then [.att] else []) ++ lifeL true (Session.ageStep age l) es
-  | true, age, .pkt s :: es => .pkt s :: lifeL true age es
+/-- everything a non-carousel object emits: `m - 1` ordinary transfers, then the last one -/
+def life (tr trLast : List Sym) (m : Nat) : List Sym := (List.replicate (m - 1) tr).flatten ++ trLast
 
-/-- every event is processed by a live object (the last one may end it) -/
-def aliveRun (Z : Setting) : Session.OState → List LEv → Bool
-  | _, [] => true
-  | os, e :: es => os.obj.isSome && aliveRun Z (objStep Z os e) es
+theorem mem_life {tr trLast : List Sym} {m : Nat} {q : Sym} (h : q ∈ life tr trLast m) : q ∈ tr ∨ q ∈ trLast := by
+  unfold life at h
+  rcases List.mem_append.mp h with h | h
+  · obtain ⟨l, hl, hq⟩ := List.mem_flatten.mp h
+    rw [(List.mem_replicate.mp hl).2] at hq
+    exact Or.inl hq
+  · exact Or.inr h
 
-/-- the two states agree on the object and on the four counters; a live object is not in the completed registry -/
-structure LifeRel (st os : Session.OState) : Prop where
-  obj : st.obj = os.obj
-  opens : st.opens = os.opens
-  completes : st.completes = os.completes
-  errors : st.errors = os.errors
-  interrupts : st.interrupts = os.interrupts
-  live : st.obj.isSome = true → st.completed = false
+theorem onlyLast_append (A B : List Sym) (hA : ∀ q, q ∈ A → q.close = false) (hB : OnlyLast B) : OnlyLast (A ++ B) := by
+  induction A with
+  | nil => simpa using hB
+  | cons x t ih =>
+    refine ⟨?_, ih (fun q hq => hA q (List.mem_cons_of_mem _ hq))⟩
+    intro hx
+    rw [hA x (List.mem_cons_self ..)] at hx
+    exact absurd hx (by simp)
 
-theorem lifeRel_finish (o : Session.ObjCfg) (st os : Session.OState) (r : Session.PushRes) (n m : Nat)
-    (h1 : st.opens + n = os.opens + m) (h2 : st.completes = os.completes) (h3 : st.errors = os.errors)
-    (h4 : st.interrupts = os.interrupts) (hc : st.completed = false) :
-    LifeRel (Session.finish o { st with opens := st.opens + n } r) (Session.finish o { os with opens := os.opens + m } r) := by
-  unfold Session.finish
-  cases r.term <;> dsimp only
-  · exact ⟨rfl, h1, h2, h3, h4, fun _ => hc⟩
-  · refine ⟨rfl, h1, ?_, h3, h4, fun h => by cases h⟩
-    show (if r.rx.attached then st.completes + 1 else st.completes) = (if r.rx.attached then os.completes + 1 else os.completes)
-    rw [h2]
-  · refine ⟨rfl, h1, h2, h3, ?_, fun h => by cases h⟩
-    show (if r.rx.attached then st.interrupts + 1 else st.interrupts) = (if r.rx.attached then os.interrupts + 1 else os.interrupts)
-    rw [h4]
-  · refine ⟨rfl, h1, h2, ?_, h4, fun h => by cases h⟩
-    show (if r.rx.attached then st.errors + 1 else st.errors) = (if r.rx.attached then os.errors + 1 else os.errors)
-    rw [h3]
+theorem onlyLast_prefix : ∀ (A B : List Sym), OnlyLast (A ++ B) → OnlyLast A := by
+  intro A
+  induction A with
+  | nil => intro _ _; trivial
+  | cons x t ih =>
+    intro B h
+    refine ⟨?_, ih B h.2⟩
+    intro hx
+    have := h.1 hx
+    exact (List.append_eq_nil_iff.mp this).1
 
-theorem lifeRel_finish0 (o : Session.ObjCfg) (st os : Session.OState) (r : Session.PushRes)
-    (h1 : st.opens = os.opens) (h2 : st.completes = os.completes) (h3 : st.errors = os.errors)
-    (h4 : st.interrupts = os.interrupts) (hc : st.completed = false) :
-    LifeRel (Session.finish o st r) (Session.finish o os r) := by
-  have := lifeRel_finish o st os r 0 0 (by omega) h2 h3 h4 hc
-  exact this
+variable (c : Codec)
 
-/-- `pushObj` is `finish` of a result that does not depend on the session-side state -/
-theorem pushObj_finish (dec : (k p : Nat) → List Nat → Bool) (rc : Session.RxCfg) (o : Session.ObjCfg) (rx : Session.ORx)
-    (s : Session.Sym) : ∃ r : Session.PushRes, ∀ st, Session.pushObj dec rc o st rx s = Session.finish o st r := by
-  by_cases h0 : (!rx.otiKnown && o.inbandFti) = true
-  · by_cases h1 : (!({ rx with otiKnown := true } : Session.ORx).otiKnown) = true
-    · simp at h1
-    · exact ⟨_, fun st => by unfold Session.pushObj; simp only [h0, ↓reduceIte]; rw [if_neg h1]⟩
-  · by_cases h1 : (!rx.otiKnown) = true
-    · by_cases h2 : Session.cacheFull rc o rx.cache = true
-      · exact ⟨_, fun st => by unfold Session.pushObj; simp only [h0, Bool.false_eq_true, ↓reduceIte]; rw [if_pos h1, if_pos h2]⟩
-      · exact ⟨_, fun st => by unfold Session.pushObj; simp only [h0, Bool.false_eq_true, ↓reduceIte]; rw [if_pos h1, if_neg h2]⟩
-    · exact ⟨_, fun st => by unfold Session.pushObj; simp only [h0, Bool.false_eq_true, ↓reduceIte]; rw [if_neg h1]⟩
+theorem encOK_obj (s : SessCfg) (o : ObjCfg) (closable : Bool) (hw : 1 ≤ s.w) (hN : o.ks.isEmpty = false)
+    (hblocks : ∀ (b k : Nat), o.ks[b]? = some k → 1 ≤ k ∧ blockFails o.scheme k o.p = false) :
+    EncOK (objEnc s o closable) := by
+  refine ⟨hw, ?_, hblocks⟩
+  simp only [objEnc]
+  have : o.ks.size ≠ 0 := by
+    intro h0
+    have := Array.isEmpty_iff_size_eq_zero.mpr h0
+    rw [this] at hN; exact absurd hN (by simp)
+  omega
 
-theorem lifeRel_pushObj (Z : Setting) (st os : Session.OState) (rx : Session.ORx) (s : Session.Sym)
-    (h1 : st.opens = os.opens) (h2 : st.completes = os.completes) (h3 : st.errors = os.errors)
-    (h4 : st.interrupts = os.interrupts) (hc : st.completed = false) :
-    LifeRel (Session.pushObj Z.dec Z.rc Z.oc st rx s) (Session.pushObj Z.dec Z.rc Z.oc os rx s) := by
-  obtain ⟨r, hr⟩ := pushObj_finish Z.dec Z.rc Z.oc rx s
-  rw [hr st, hr os]
-  exact lifeRel_finish0 _ _ _ _ h1 h2 h3 h4 hc
+/-- one transfer of the model's sender is what the receiver theorems ask of a transfer -/
+theorem transferOK_of_emit (s : SessCfg) (o : ObjCfg) (closable : Bool) (hw : 1 ≤ s.w) (hN : o.ks.isEmpty = false)
+    (hblocks : ∀ (b k : Nat), o.ks[b]? = some k → 1 ≤ k ∧ blockFails o.scheme k o.p = false)
+    (T : List Sym) (h : emitTransfer (objEnc s o closable) = some T) : TransferOK c o T := by
+  obtain ⟨q1, q2, q3, ⟨cl, T', hT, hT'⟩, _⟩ :=
+    emitTransfer_facts _ (encOK_obj s o closable hw hN hblocks) T h
+  refine ⟨?_, ⟨_, T', hT, rfl, rfl, hT'⟩, ?_, onlyLast_split T q3⟩
+  · intro q hq; exact q1 q hq
+  · intro b hb
+    have hk : o.ks[b]? = some o.ks[b] := Array.getElem?_eq_getElem hb
+    refine ⟨_, hk, c.sources _ _ _ ?_⟩
+    intro i hi
+    obtain ⟨q, hq, hq1, hq2⟩ := q2 b _ i hk hi
+    rw [mem_symsOf]
+    exact ⟨q, hq, hq1, hq2⟩
 
-theorem finish_age (o : Session.ObjCfg) (st : Session.OState) (r : Session.PushRes) : (Session.finish o st r).age = st.age := by
-  unfold Session.finish; cases r.term <;> rfl
+/-- the whole life of a non-carousel object: genuine packets, close-object flag on the last packet only -/
+theorem life_facts (s : SessCfg) (o : ObjCfg) (hw : 1 ≤ s.w) (hN : o.ks.isEmpty = false)
+    (hblocks : ∀ (b k : Nat), o.ks[b]? = some k → 1 ≤ k ∧ blockFails o.scheme k o.p = false)
+    (tr trLast : List Sym) (h1 : emitTransfer (objEnc s o false) = some tr) (h2 : emitTransfer (objEnc s o true) = some trLast) :
+    (∀ q, q ∈ life tr trLast o.transfers → Genuine o q) ∧ OnlyLast (life tr trLast o.transfers) ∧
+    (∀ q, q ∈ tr → Genuine o q ∧ q.close = false) := by
+  obtain ⟨a1, _, _, _, a5⟩ := emitTransfer_facts _ (encOK_obj s o false hw hN hblocks) tr h1
+  obtain ⟨b1, _, b3, _, _⟩ := emitTransfer_facts _ (encOK_obj s o true hw hN hblocks) trLast h2
+  refine ⟨?_, ?_, fun q hq => ⟨a1 q hq, a5 rfl q hq⟩⟩
+  · intro q hq
+    rcases mem_life hq with h | h
+    · exact a1 q h
+    · exact b1 q h
+  · apply onlyLast_append _ _ _ b3
+    intro q hq
+    obtain ⟨l, hl, hq⟩ := List.mem_flatten.mp hq
+    rw [(List.mem_replicate.mp hl).2] at hq
+    exact a5 rfl q hq
 
-theorem pushObj_age (Z : Setting) (st : Session.OState) (rx : Session.ORx) (s : Session.Sym) :
-    (Session.pushObj Z.dec Z.rc Z.oc st rx s).age = st.age := by
-  obtain ⟨r, hr⟩ := pushObj_finish Z.dec Z.rc Z.oc rx s
-  rw [hr st, finish_age]
-
-theorem objRun_append (Z : Setting) (os : Session.OState) (a b : List LEv) : objRun Z os (a ++ b) = objRun Z (objRun Z os a) b := by
-  induction a generalizing os with
-  | nil => rfl
-  | cons e es ih => simp only [List.cons_append, objRun]; exact ih _
-
-theorem aliveRun_append (Z : Setting) (os : Session.OState) (a b : List LEv) :
-    aliveRun Z os (a ++ b) = (aliveRun Z os a && aliveRun Z (objRun Z os a) b) := by
-  induction a generalizing os with
-  | nil => simp [aliveRun, objRun]
-  | cons e es ih => simp only [List.cons_append, aliveRun, objRun, ih, Bool.and_assoc]
-
-/-- the four counters agree -/
-def SameCounters (a b : Session.OState) : Prop :=
-  a.opens = b.opens ∧ a.completes = b.completes ∧ a.errors = b.errors ∧ a.interrupts = b.interrupts
-
-/-- ONE LIFE, the object exists: `runObj` and `objRun` make the same writer calls -/
-theorem life_created (Z : Setting) : ∀ (evs : List Session.Ev) (st os : Session.OState), LifeRel st os →
-    aliveRun Z os (lifeL true st.age evs) = true →
-    SameCounters (Session.runObj Z.dec Z.rc Z.oc st evs) (objRun Z os (lifeL true st.age evs)) := by
-  intro evs
-  induction evs with
-  | nil => intro st os h _; exact ⟨h.opens, h.completes, h.errors, h.interrupts⟩
-  | cons e es ih =>
-    intro st os h ha
-    cases e with
-    | fdt l =>
-      simp only [lifeL] at ha ⊢
-      simp only [Session.runObj]
-      rw [aliveRun_append] at ha
-      rw [objRun_append]
-      have hage : (Session.stepObj Z.dec Z.rc Z.oc st (.fdt l)).age = Session.ageStep st.age l := by
-        simp only [Session.stepObj, Session.fdtEv]
-        congr 1
-        cases st.obj with
-        | none => rfl
-        | some rx => dsimp only; split <;> first | rfl | exact finish_age _ _ _
-      rw [← hage] at ha ⊢
-      simp only [Bool.and_eq_true] at ha
-      refine ih _ _ ?_ ha.2
-      cases l with
-      | false =>
-        rw [stepObj_fdt_other]
-        exact ⟨h.obj, h.opens, h.completes, h.errors, h.interrupts, fun _ => rfl⟩
-      | true =>
-        have ha1 : os.obj.isSome = true := by
-          have := ha.1; simp only [if_true, aliveRun, Bool.and_eq_true] at this; exact this.1
-        cases hobj : os.obj with
-        | none => rw [hobj] at ha1; cases ha1
-        | some rx =>
-          have hsobj : st.obj = some rx := by rw [h.obj, hobj]
-          have hc : st.completed = false := h.live (by rw [hsobj]; rfl)
-          have key : LifeRel (objStep Z st .att) (objStep Z os .att) := by
-            simp only [objStep, hobj, hsobj]
-            by_cases hat : rx.attached = true
-            · simp only [hat, Bool.not_true, Bool.false_eq_true, if_false]
-              exact h
-            · have hat' : rx.attached = false := by simpa using hat
-              simp only [hat', Bool.not_false, if_true]
-              exact lifeRel_finish _ _ _ _ 1 1 (by rw [h.opens]) h.completes h.errors h.interrupts hc
-          rw [stepObj_fdt Z st rx hsobj]
-          simp only [if_true, objRun]
-          exact ⟨key.obj, key.opens, key.completes, key.errors, key.interrupts,
-            fun hh => by show ((objStep Z st .att).completed && true) = false; rw [key.live hh]; rfl⟩
-    | pkt s =>
-      simp only [lifeL, aliveRun, objRun, Bool.and_eq_true] at ha ⊢
-      simp only [Session.runObj]
-      cases hobj : os.obj with
-      | none => rw [hobj] at ha; cases ha.1
-      | some rx =>
-        have hsobj : st.obj = some rx := by rw [h.obj, hobj]
-        have hc : st.completed = false := h.live (by rw [hsobj]; rfl)
-        rw [stepObj_pkt Z st rx s hsobj hc]
-        have e1 : objStep Z st (.pkt s) = Session.pushObj Z.dec Z.rc Z.oc st rx s := by simp only [objStep, hsobj]
-        have e2 : objStep Z os (.pkt s) = Session.pushObj Z.dec Z.rc Z.oc os rx s := by simp only [objStep, hobj]
-        rw [e1]
-        rw [e2] at ha ⊢
-        have hage := pushObj_age Z st rx s
-        rw [← hage] at ha ⊢
-        exact ih _ _ (lifeRel_pushObj Z st os rx s h.opens h.completes h.errors h.interrupts hc) ha.2
-
-/-- ONE LIFE from a state without object: the first packet creates it (attached at creation when an FDT instance lists the TOI) -/
-theorem life_new (Z : Setting) : ∀ (evs : List Session.Ev) (st os : Session.OState),
-    st.obj = none → st.completed = false → os.obj = some Session.rx0 → SameCounters st os →
-    aliveRun Z os (lifeL false st.age evs) = true →
-    SameCounters (Session.runObj Z.dec Z.rc Z.oc st evs) (objRun Z os (lifeL false st.age evs)) := by
-  intro evs
-  induction evs with
-  | nil => intro st os _ _ _ h _; exact h
-  | cons e es ih =>
-    intro st os hobj hc hos h ha
-    cases e with
-    | fdt l =>
-      simp only [lifeL] at ha ⊢
-      simp only [Session.runObj]
-      have hst : Session.stepObj Z.dec Z.rc Z.oc st (.fdt l) = { st with completed := st.completed && l, age := Session.ageStep st.age l } := by
-        simp only [Session.stepObj, Session.fdtEv, hobj]
-      rw [hst]
-      exact ih _ os hobj (by show (st.completed && l) = false; rw [hc]; rfl) hos h ha
-    | pkt s =>
-      simp only [Session.runObj]
-      have hst : Session.stepObj Z.dec Z.rc Z.oc st (.pkt s) = Session.pushNew Z.dec Z.rc Z.oc st s := by
-        simp only [Session.stepObj, hc, Bool.false_eq_true, if_false]
-      rw [hst]
-      simp only [lifeL] at ha ⊢
-      rw [aliveRun_append] at ha
-      rw [objRun_append]
-      simp only [Bool.and_eq_true] at ha
-      by_cases hage : st.age.isSome = true
-      · -- attached at creation
-        simp only [hage, if_true, aliveRun, objRun, Bool.and_eq_true] at ha ⊢
-        have hatt : objStep Z os .att =
-            Session.finish Z.oc { os with opens := os.opens + 1 } (Session.attach Z.dec Z.rc Z.oc Session.rx0) := by
-          simp [objStep, hos, Session.rx0]
-        rw [hatt] at ha ⊢
-        obtain ⟨hterm, hrx⟩ := finish_obj_some (Option.isSome_iff_exists.mp ha.1.2.1).choose_spec
-        have hfin : Session.finish Z.oc { os with opens := os.opens + 1 } (Session.attach Z.dec Z.rc Z.oc Session.rx0) =
-            { os with opens := os.opens + 1, obj := some (Session.attach Z.dec Z.rc Z.oc Session.rx0).rx } := by
-          unfold Session.finish; rw [hterm]
-        rw [hfin] at ha ⊢
-        have hpn : Session.pushNew Z.dec Z.rc Z.oc st s =
-            Session.pushObj Z.dec Z.rc Z.oc { st with opens := st.opens + 1 } (Session.attach Z.dec Z.rc Z.oc Session.rx0).rx s := by
-          simp [Session.pushNew, hobj, hage, hterm]
-        rw [hpn]
-        have e2 : objStep Z { os with opens := os.opens + 1, obj := some (Session.attach Z.dec Z.rc Z.oc Session.rx0).rx } (.pkt s) =
-            Session.pushObj Z.dec Z.rc Z.oc { os with opens := os.opens + 1, obj := some (Session.attach Z.dec Z.rc Z.oc Session.rx0).rx }
-              (Session.attach Z.dec Z.rc Z.oc Session.rx0).rx s := by simp only [objStep]
-        rw [e2] at ha ⊢
-        have hage2 := pushObj_age Z { st with opens := st.opens + 1 } (Session.attach Z.dec Z.rc Z.oc Session.rx0).rx s
-        have hage3 : st.age = (Session.pushObj Z.dec Z.rc Z.oc { st with opens := st.opens + 1 }
-            (Session.attach Z.dec Z.rc Z.oc Session.rx0).rx s).age := hage2.symm
-        rw [hage3] at ha ⊢
-        exact life_created Z es _ _ (lifeRel_pushObj Z { st with opens := st.opens + 1 }
-          { os with opens := os.opens + 1, obj := some (Session.attach Z.dec Z.rc Z.oc Session.rx0).rx } _ s
-          (by show st.opens + 1 = os.opens + 1; rw [h.1]) h.2.1 h.2.2.1 h.2.2.2 hc) ha.2
-      · simp only [hage, Bool.false_eq_true, if_false, aliveRun, objRun, Bool.and_eq_true] at ha ⊢
-        have hpn : Session.pushNew Z.dec Z.rc Z.oc st s = Session.pushObj Z.dec Z.rc Z.oc st Session.rx0 s := by
-          simp [Session.pushNew, hobj, hage]
-        rw [hpn]
-        have e2 : objStep Z os (.pkt s) = Session.pushObj Z.dec Z.rc Z.oc os Session.rx0 s := by simp only [objStep, hos]
-        rw [e2] at ha ⊢
-        have hage3 : st.age = (Session.pushObj Z.dec Z.rc Z.oc st Session.rx0 s).age := (pushObj_age Z st Session.rx0 s).symm
-        rw [hage3] at ha ⊢
-        exact life_created Z es _ _ (lifeRel_pushObj Z _ _ _ s h.1 h.2.1 h.2.2.1 h.2.2.2 hc) ha.2
-
-end Flute.Link
+end Flute.Lemmas.Session
